@@ -3,6 +3,7 @@ package checks
 import (
 	"bufio"
 	"bytes"
+	"encoding/binary"
 	"crypto/sha1"
 	"fmt"
 	"os"
@@ -269,6 +270,26 @@ func e1Seeds() (box []e1Seed, file []e1Seed) {
 		addBox("raw/sdtp", "sdtp", t.SdtpBytes())
 		u := tableref.Tables{StszCount: 4, StszUniform: 7}
 		addBox("raw/stsz uniform", "stsz", u.StszBytes())
+		// counted uuid boxes (MSS tfxd / tfrf), both versions, with entry counts around the points where
+		// count x entry size crosses 256 (8-bit count field)
+		for _, v := range []byte{0, 1} {
+			xid, _ := hexDecode("6d1d9b0542d544e680e2141daff757b2")
+			rid, _ := hexDecode("d4807ef2ca3946958e5426cb9e46a79f")
+			put := func(b []byte, x uint64) []byte {
+				if v == 0 {
+					return binary.BigEndian.AppendUint32(b, uint32(x))
+				}
+				return binary.BigEndian.AppendUint64(b, x)
+			}
+			addBox(fmt.Sprintf("raw/uuid tfxd v%d", v), "uuid", tableref.Box("uuid", xid, put(put([]byte{v, 0, 0, 0}, 0x0102030405060708), 0x1112131415161718)))
+			for _, n := range []int{1, 2, 15, 16, 17, 31, 32, 33, 255} {
+				payload := []byte{v, 0, 0, 0, byte(n)}
+				for i := 0; i < n; i++ {
+					payload = put(put(payload, uint64(1000*i+1)), uint64(1000+i))
+				}
+				addBox(fmt.Sprintf("raw/uuid tfrf v%d with %d entries", v, n), "uuid", tableref.Box("uuid", rid, payload))
+			}
+		}
 		// QuickTime form of meta: no version/flags, the payload starts with the hdlr child
 		if h, err := mp4.CreateHdlr("vide"); err == nil {
 			var hb bytes.Buffer
